@@ -10,10 +10,6 @@ static const Reg regs[] = {
 	C01_SET("S.L1.c.q", L1, 8, 8, 0, false, false),
 	C01_SET("S.L2.a.p", L2, 4, 4, 0, false, true),
 	C01_SET("S.L2.n.q", L2, 8, 4, 1, false, false),
-	C01_MAP("M.L3.x.q", L3, 8, 4, 2, false, false),
-	C01_SET("S.L3.g.f", L3, 1, 1, 0, true, false),
-	C01_MAPV("B.L4.b.q", L4, 8, 4, 0, false, false, BigVal),
-	C01_MAPV("T.L4.b.q", L4, 8, 4, 0, false, false, StrVal),
 };
 static void leaf(const std::vector<std::string>& w)
 {
